@@ -1,3 +1,30 @@
-(* Engine entry points for C20: run_c20 sub-op case.  (stub until the property's model exists) *)
-From Pan Require Import Base.Common Base.Sx.
-Definition run_c20 (sub : Z) (x : sx) : sx := SL [SZ (-1)].
+(* Engine entry points for C20: a table of cells is loaded with the model's loader (Model/Tsv.v), then
+   every summary, the across-groups summary and the per-subject lookups are computed by Model/Stats.v. *)
+From Pan Require Import Base.Common Base.Sx Model.Stats Model.Tsv Run.R18.
+
+Definition ofVsum (v : vsum) : sx :=
+  SL [SL (map ofQ (vs_values v)); ofQ (vs_avg v); ofQ (vs_var v); ofQ (vs_min v); ofQ (vs_max v)].
+Definition ofOne (r : list (name * list (name * option Q))) : sx :=
+  SL (map (fun gl => SL [ofName (fst gl); SL (map (fun mv => SL [ofName (fst mv); ofOpt ofQ (snd mv)]) (snd gl))]) r).
+
+(* 1: (table queries) -> (load-result summaries across one-subject-results)
+      summaries = per group (in groupnames order) per metric (metricnames order) *)
+Definition run_stats (x : sx) : sx :=
+  match load toy_parse (sTable (sNth 0 x)) with
+  | Err c => SL [SL [SZ 1; SZ c]; SL []; SL []; SL []]
+  | Ok st =>
+      SL [SL [SZ 0; ofStat st];
+          SL (map (fun g => SL (map (fun m => ofRes18 ofVsum (get_summary st g m)) (metricnames st))) (groupnames st));
+          ofRes18 (fun r => SL (map (fun mv => SL [ofName (fst mv); ofVsum (snd mv)]) r)) (get_summary_across_groups st);
+          SL (map (fun s => ofRes18 ofOne (get_one_subject st s)) (sNames (sNth 1 x)))]
+  end.
+(* 2: (table group metric) -> get on names that may be absent *)
+Definition run_get (x : sx) : sx :=
+  match load toy_parse (sTable (sNth 0 x)) with
+  | Err c => SL [SZ 1; SZ c]
+  | Ok st => ofRes18 ofCol (get st (sZs (sNth 1 x)) (sZs (sNth 2 x)))
+  end.
+
+Definition run_c20 (sub : Z) (x : sx) : sx :=
+  if sub =? 1 then run_stats x else
+  if sub =? 2 then run_get x else SL [SZ (-1)].
